@@ -100,16 +100,16 @@ TruncPoints(e) == IF Len(e) <= 24 THEN 0..(Len(e) - 1)
 FlipPos(e) == 1..(IF Len(e) < 6 THEN Len(e) ELSE 6)
 FlipVals(b) == {0, 1, 2, 3, 4, 7, 252, 253, 254, 255, (b + 1) % 256, (b + 128) % 256}
 (* declared lengths far beyond the input.  Where the code under test is known to allocate *)
-(* the declared length up front (byte strings) the executed cases stop at 2^22: touching  *)
+(* the declared length up front (byte strings) the executed cases stop at 2^20: touching  *)
 (* gigabytes makes the sandbox crawl and the verdict is the same.  Elsewhere up to 2^32-1. *)
-SmallHugeHeads == { <<2, 0, 4, 0>>, <<2, 0, 64, 0>>, <<2, 0, 0, 1>> }                     \* 2^16, 2^20, 2^22
+SmallHugeHeads == { <<2, 0, 4, 0>>, <<2, 0, 64, 0>> }                                     \* 2^16, 2^20
 HugeHeads(t) == IF t.k \in {"bytes", "str"} \/ (t.k = "slice" /\ t.t.k \in {"u", "i"} /\ t.t.n = 1)
                 THEN SmallHugeHeads
                 ELSE SmallHugeHeads \cup { <<254, 255, 255, 255>>, <<3, 0, 0, 0, 64>>, <<3, 255, 255, 255, 255>> }
 
-(* an uncontrolled mutation that happens to declare more than 2^22 elements is not executed *)
+(* an uncontrolled mutation that happens to declare more than 2^20 elements is not executed *)
 (* (the "hugelen" mutations cover that class with controlled sizes)                         *)
-TooBig(t, b) == LET r == ScDec(t, b) IN ~r.ok /\ r.why = "length" /\ (r.n = -1 \/ r.n > 4194304)
+TooBig(t, b) == LET r == ScDec(t, b) IN ~r.ok /\ r.why = "length" /\ (r.n = -1 \/ r.n > 1048576)
 
 Mutations(t, v) ==
   LET e == ScEnc(t, v) IN
